@@ -360,7 +360,20 @@ def climb(rep, c, sfx):
         r.violation("rec:loop-nesting", where(call),
                     "the right operand is extended at most once (no inner loop around the recursive call): "
                     "`a+b^c*d` groups as ((a+(b^c))*d)")
-    conds = [g for g in ctx.guards(call) if g[0] == "if" and g[2] is True]
+    # conditions that dominate the recursive call: enclosing `if`s, enclosing arm guards, and earlier
+    # `let x = match .. { P if COND => .., _ => break }` statements (the continuation runs only under COND)
+    conds = []
+    for g in ctx.guards(call):
+        if g[0] == "if" and g[2] is True:
+            conds.append(g)
+        elif g[0] == "guard":
+            conds.append(("if", g[1], True))
+        elif g[0] == "let" and g[1].get("init") is not None and kind(peel(g[1]["init"])) == "Match":
+            mm = peel(g[1]["init"])
+            live = [a for a in mm["arms"] if not (hirq.diverges(a["body"]) or a["body"].get("ty") == "!")]
+            if live and all(a.get("guard") is not None for a in live):
+                for a in live:
+                    conds.append(("if", a["guard"], True))
     texts = [hirq.expr_text(peel(g[1])) for g in conds]
     r.instance("rec:conditions", where(call), str(texts))
     inner = [t for t in texts if "new_prec" in t or "||" in t]
